@@ -15,6 +15,9 @@ Streams
             method / decoded path / query / headers / body, the client received exactly status / headers /
             body; chunked framing only on HTTP/1.1 without Content-Length and never for HEAD, 1xx, 204, 304.
             The response body framing is also predicted by Model.Chunked (chunkedDecision + bodyWire).
+  environ   make_environ's header folding (underscore names dropped, repeats comma-joined, CONTENT_TYPE /
+            CONTENT_LENGTH un-prefixed, line folds removed) on the headers as http.server parsed them vs
+            Model.Chunked.foldHeaders.
 """
 from __future__ import annotations
 
@@ -24,7 +27,7 @@ import os
 import re
 import sys
 
-from vlib.core import VERIF, Check, Stream, b01, hx, line, unhx
+from vlib.core import VERIF, Check, Stream, b01, hs, hx, line, unhx
 
 _GEN = None
 
@@ -625,17 +628,93 @@ class ServerStream(Stream):
             yield c
 
 
+HDR_NAMES = ["X-A", "x-a", "X-a", "X_A", "X-B", "Accept", "accept", "Content-Type", "content-type", "Content-Length", "CONTENT-LENGTH", "Content_Type", "X-A-B", "X-A_B", "Cookie", "Host", "User-Agent", "User_Agent", "X.Dot", "X1"]
+HDR_VALUES = ["1", "2", "v", "a, b", "", "text/plain", "12", "x=y; z", "a\r\n b", "q\r\n\tr", "  padded  ", "é", "0"]
+
+
+class EnvironStream(Stream):
+    """header folding of make_environ vs Model.Chunked.foldHeaders (input = http.server's parsed headers)"""
+
+    name = "environ"
+    corpus = [
+        {"headers": [["X-A", "1"], ["X_A", "2"], ["x-a", "3"]]},
+        {"headers": [["Content-Type", "a/b"], ["content-type", "c/d"], ["Content_Type", "e/f"]]},
+        {"headers": [["X-Fold", "a\r\n b"], ["X-Fold", "c"]]},
+        {"headers": [["User_Agent", "evil"], ["User-Agent", "good"]]},
+        {"headers": []},
+    ]
+
+    def cases(self, rng, tier):
+        n = 0
+        while tier != "quick" or n < 800:
+            n += 1
+            yield {"headers": [[rng.choice(HDR_NAMES), rng.choice(HDR_VALUES)] for _ in range(rng.randrange(0, 7))]}
+
+    def _observe(self, case):
+        g = gen_mod()
+        seen = {}
+
+        def app(environ, start_response):
+            seen["env"] = [(k, v) for k, v in environ.items() if k.startswith("HTTP_") or k in ("CONTENT_TYPE", "CONTENT_LENGTH")]
+            start_response("200 OK", [("Content-Length", "0")])
+            return []
+
+        raw = "GET / HTTP/1.1\r\n" + "".join(f"{k}: {v}\r\n" for k, v in case["headers"]) + "\r\n"
+        out, h = g.run_in_memory(raw.encode("latin-1"), app, want_handler=True)
+        return seen.get("env"), list(h.headers.items()) if getattr(h, "headers", None) is not None else None
+
+    def real(self, case):
+        env, parsed = self._observe(case)
+        if env is None:
+            return "NOT-CALLED"
+        return ",".join(hs(k) + ":" + hs(v) for k, v in env) or "[]"
+
+    def model_line(self, case):
+        env, parsed = self._observe(case)
+        if env is None or parsed is None:
+            return None
+        return line("env.fold", ",".join(hs(k) + ":" + hs(v) for k, v in parsed) or "[]")
+
+    def oracle(self, case, real_out):
+        env, parsed = self._observe(case)
+        if env is None:
+            return None  # http.server refused the request itself (outside the model)
+        expect = {}
+        for k, v in parsed:
+            if "_" in k:
+                continue
+            key = k.upper().replace("-", "_")
+            v = v.replace("\r\n", "")
+            if key in ("CONTENT_TYPE", "CONTENT_LENGTH"):
+                expect[key] = v
+            else:
+                key = "HTTP_" + key
+                expect[key] = v if key not in expect else expect[key] + "," + v
+        if dict(env) != expect:
+            return f"environ headers {dict(env)!r} != headers sent (underscore names dropped, repeats comma-joined) {expect!r}"
+        return None
+
+    def nontrivial(self, case, real_out):
+        return len(case["headers"]) > 1
+
+    def bucket(self, case, real_out):
+        return f"n={min(len(case['headers']), 4)}" + ("/underscore" if any("_" in k for k, _ in case["headers"]) else "")
+
+
 CHECK = Check(
     prop="C19",
     gen=["Framing"],
     modules=["WzVerif.Props.C19"],
-    streams=[ChunkLenStream(), DechunkStream(), EncodeStream(), ServerStream()],
+    streams=[ChunkLenStream(), DechunkStream(), EncodeStream(), ServerStream(), EnvironStream()],
     assumptions=[
         "partial: http.server's request-line / header parsing, sockets, selectors and timing are outside the model; they are only exercised by stream server",
         "rfile is a blocking buffered reader: readline() returns up to and including LF (or everything), read(n) returns n bytes unless the stream ends (modelled as a byte list)",
         "Python int(s, 16) on the stripped latin-1 size line is hand-modelled (sign, 0x prefix, single underscores, surrounding whitespace) and validated by stream chunklen",
         "io.BufferedReader / RawIOBase.readall are treated as arbitrary callers of DechunkedInput.readinto (the theorems hold for every sequence of positive read sizes); the stream replays the calls they issue",
         "chunk extensions and trailers are outside the property's quantifier (the code rejects both with OSError)",
+        "make_environ: the header folding is modelled (input = http.server's parsed header list); request-line splitting, urlsplit, percent-decoding of the path and the latin-1 dance are not modelled - they are checked by the property oracle of stream server only",
+        "known finding F19b: an origin-form target starting with '//' reaches the application with one leading slash because CPython >= 3.12 http.server collapses it before werkzeug runs; no Lean witness (request-line parsing is outside the model)",
+        "the handler's protocol_version (set by the server) decides chunked responses; the request line's HTTP version is not consulted (table column, see framing_table_matches_model) - a chunked response can be sent to an HTTP/1.0 client of an HTTP/1.1 server",
     ],
     trusted_extra=["CPython http.server, socket, selectors, io (exercised by stream server, not verified)"],
     quick_budget=2500,
@@ -643,7 +722,7 @@ CHECK = Check(
 )
 
 MANIFEST = {
-    "level_text": "Machine-checked Lean 4 theorems about an executable model of DechunkedInput (read_chunk_len with Python's int(s,16), readinto as a state machine), a chunk encoder and the response framing decision: decoding any encoded chunk list under every sequence of positive read sizes yields exactly the payload then EOF; malformed framing raises OSError and delivers nothing but received payload bytes; the chunked-response decision decided over a table obtained on every run by exhaustive evaluation of the real handler (status 100-599 x method x Content-Length x protocol). Partial: request parsing by http.server, sockets and timing are only exercised by an in-process socket-pair stream.",
+    "level_text": "Machine-checked Lean 4 theorems about an executable model of DechunkedInput (read_chunk_len with Python's int(s,16), readinto as a state machine), a chunk encoder and the response framing decision: decoding any encoded chunk list under every sequence of positive read sizes yields exactly the payload then EOF; malformed framing raises OSError and delivers nothing but received payload bytes; the chunked-response decision decided over a table obtained on every run by exhaustive evaluation of the real handler (status 100-599 x method x Content-Length x protocol); the response writer's chunked body read back through the de-chunker is the application's output; make_environ's header folding (underscore names ignored, repeats comma-joined in order). Partial: request parsing by http.server, sockets and timing are only exercised by an in-process socket-pair stream.",
     "level_note": "partial - Trusted: Lean kernel; extract.py; the harness; CPython http.server / socket / io. rfile modelled as a byte list.",
     "technique": "Lean 4 proof (induction over chunk lists and read schedules; decide +kernel over a regenerated decision table) + model/code correspondence",
     "design_ref": "DESIGN.md section 4, C19",
